@@ -656,7 +656,7 @@ def liveLoop (f : Func) : Nat → List Val → List Val → Option (List Val)
     if v ∈ live then liveLoop f n work live
     else
       let ds := f.allInstrs.filter (fun i => v ∈ i.results)
-      liveLoop f n (ds.flatMap (fun i => i.operands.map (res f.alias)) ++ work) (v :: ds.flatMap (·.results) ++ live)
+      liveLoop f n (ds.flatMap (fun i => i.operands.map (res f.alias)) ++ work) (v :: live)
 
 /-- the operands (resolved) of the instructions of valid blocks that are not `sideEffectNone` -/
 def liveRoots (tbl : Opcode → Eff) (f : Func) : List Val :=
@@ -665,7 +665,7 @@ def liveRoots (tbl : Opcode → Eff) (f : Func) : List Val :=
 def Func.numOperands (f : Func) : Nat := (f.allInstrs.map (·.operands.length)).sum
 
 def liveSet (tbl : Opcode → Eff) (f : Func) : Option (List Val) :=
-  liveLoop f (2 * (f.numOperands + f.numInstrs) + 2) (liveRoots tbl f) []
+  liveLoop f (4 * (f.numOperands + f.numInstrs) + 4) (liveRoots tbl f) []
 
 /-- an instruction stays iff it is not `sideEffectNone` or one of its results is live -/
 def keeps (tbl : Opcode → Eff) (live : List Val) (i : Instr) : Bool :=
